@@ -17,9 +17,9 @@ VERIF_MAIN {
   unsigned long long ord[N]; ukey_t d[N];
   for (int i = 0; i < N; i++) { ord[i] = IN(i ? ord[i - 1] : 0, ORD_HI); d[i] = FROM_ORD(ord[i]); }
   unsigned long long qo = IN(0, ORD_MAX - 1); ukey_t q = FROM_ORD(qo);
-  unsigned long out[7] = {0, 0, 0, 0, 0, 0, 0};
+  unsigned long out[8] = {0, 0, 0, 0, 0, 0, 0, 0};
   unsigned int rc = UNIT(u_mapped)(d, n, &q, out);
-  OUT(rc); for (int i = 0; i < 7; i++) OUT(out[i]);
+  OUT(rc); for (int i = 0; i < 8; i++) OUT(out[i]);
   ASSERT(rc == 0, "construction and queries do not throw");
   unsigned long lb = 0, ub = 0, cnt = 0;
   for (int i = 0; i < N; i++) { if (ord[i] < qo) lb = i + 1; if (ord[i] <= qo) ub = i + 1; if (ord[i] == qo) cnt++; }
@@ -28,5 +28,9 @@ VERIF_MAIN {
   ASSERT(out[2] == cnt, "C11 count equals std::count");
   ASSERT((out[3] != 0) == (cnt != 0), "C11 contains equals std::binary_search");
   ASSERT(out[4] == n && out[5] == 1 && out[6] == n, "C11 begin()/end()/size() expose exactly the stored sequence");
+#ifdef WITH_FRAME
+  ASSERT(out[7] == 1, "C16 the mapped queries leave every byte of the container object unchanged and are deterministic");
+  for (int i = 0; i < N; i++) ASSERT(d[i] == FROM_ORD(ord[i]), "C16 the queries do not write to the mapped data");
+#endif
   VERIF_END;
 }
